@@ -24,6 +24,7 @@ func init() {
 	families["immut"] = genImmut
 	families["xver"] = genXver
 	families["pool_seq"] = genPoolSeq
+	families["xver_big"] = genXverBig
 }
 
 // postingsBatch builds n documents in which term "x" of field "a" occurs exactly in the
@@ -636,7 +637,12 @@ func genDictRanges(r *rand.Rand, i int) Scenario {
 		}
 		sc.Ops = append(sc.Ops, Op{Op: "dict", Seg: seg, Field: f, Lo: lo, Hi: hi, Aut: aut})
 		sc.Ops = append(sc.Ops, Op{Op: "contains", Seg: seg, Field: f, Term: B(keysV[r.Intn(len(keysV))])})
-		sc.Ops = append(sc.Ops, Op{Op: "pl_open", Seg: seg, Field: f, Term: B(keysV[r.Intn(len(keysV))]), Pl: 50 + k})
+		o := Op{Op: "pl_open", Seg: seg, Field: f, Term: B(keysV[r.Intn(len(keysV))]), Pl: 50 + k}
+		if k > 0 && r.Intn(2) == 0 {
+			o.Prealloc = 50 + r.Intn(k) // an earlier list (the handle follows the object)
+		}
+		sc.Ops = append(sc.Ops, o, Op{Op: "it_open_last", It: 80 + k, Freq: true, Norm: true, Locs: true},
+			Op{Op: "it_next_last"}, Op{Op: "it_next_last"})
 	}
 	return sc
 }
@@ -901,6 +907,62 @@ func genPoolSeq(r *rand.Rand, i int) Scenario {
 		sc.Ops = append(sc.Ops, Op{Op: "build", Seg: h, Batch: j, Mode: modes[j]})
 		if r.Intn(4) == 0 {
 			sc.Ops = append(sc.Ops, Op{Op: "observe", Seg: h, Level: "full"})
+		}
+	}
+	return sc
+}
+
+// xver_big: terms whose cardinality sits on the format's chunking constants (exact multiples of 1024,
+// +-1) in segments of 1024..3073 documents, written by one implementation and read by the other (C10)
+func genXverBig(r *rand.Rand, i int) Scenario {
+	card := []int{1024, 1024, 2048, 1023, 1025, 2047, 3072}[i%7]
+	n := card + []int{0, 0, 1, 5, 1024}[r.Intn(5)]
+	w, rd := "cur", "ref"
+	if (i/7)%2 == 1 {
+		w, rd = "ref", "cur"
+	}
+	b := make(Batch, n)
+	for d := 0; d < n; d++ {
+		doc := Doc{}
+		if d < card {
+			occ := TermOcc{Term: B([]byte("x")), Freq: 1 + d%3, Locs: []Loc{}}
+			if d%5 == 0 {
+				occ.Locs = append(occ.Locs, Loc{Field: "", Pos: 1, Start: d, End: d + 1})
+			}
+			doc = append(doc, FieldInst{Name: "a", Len: occ.Freq, Value: Bytes{}, Terms: []TermOcc{occ}, DV: d%2 == 0})
+		}
+		b[d] = doc
+	}
+	// doc-value flag by name
+	for d := range b {
+		for k := range b[d] {
+			b[d][k].DV = true
+		}
+	}
+	sc := Scenario{Name: fmt.Sprintf("xver_big-%d", i), NormKind: "code", Universe: []string{"_id", "a"}, Batches: []Batch{b}}
+	sc.Ops = append(sc.Ops, Op{Op: "build", Seg: 1, Batch: 0, Mode: 0, Impl: w},
+		Op{Op: "persist", Seg: 1, File: 1}, Op{Op: "layout", File: 1},
+		Op{Op: "load", File: 1, Seg: 2, Backing: "mem", Impl: rd})
+	seg := 2
+	if r.Intn(2) == 0 {
+		// merged output with the same kind of cardinality (a few documents without the term are dropped)
+		drop := []int{}
+		for d := card; d < n && len(drop) < 3; d++ {
+			drop = append(drop, d)
+		}
+		sc.Ops = append(sc.Ops, Op{Op: "merge", File: 2, In: []int{1}, Drops: []DropSpec{{Kind: "set", Docs: drop}}, Mode: 0, Buf: 4096, Impl: w},
+			Op{Op: "layout", File: 2}, Op{Op: "load", File: 2, Seg: 3, Backing: "mem", Impl: rd})
+		seg = 3
+	}
+	sc.Ops = append(sc.Ops, Op{Op: "pl_open", Seg: seg, Field: "a", Term: B([]byte("x")), Pl: 10},
+		Op{Op: "it_open", Pl: 10, It: 20, Freq: true, Norm: true, Locs: true})
+	for k := 0; k < card+1; k++ {
+		sc.Ops = append(sc.Ops, Op{Op: "it_next", It: 20})
+	}
+	sc.Ops = append(sc.Ops, Op{Op: "dv_open", Seg: seg, R: 1, Fields: []string{"a"}})
+	for _, d := range []int{0, 1023, 1024, card - 1, n - 1, 511} {
+		if d >= 0 && d < n {
+			sc.Ops = append(sc.Ops, Op{Op: "dv_visit", R: 1, N: d})
 		}
 	}
 	return sc
